@@ -124,6 +124,7 @@ def run_query(spec):
         ok = lp is not None and bool(pred(ir.ConcreteB, states[lp[1]]))
         out["loop"] = list(lp) if lp else None
       out["concrete_confirms"] = ok
+      out["ghost"] = {k: v for k, v in states[-1].items() if k.startswith("g.")}
       out["trace"] = ["%s: %s.%s%s" % (sysm.prog(i["tid"]).name, i["target"], i["op"], "" if i["outcome"] in (None, "ok") else " -> " + i["outcome"])
                       for i in infos if i["op"] != "start"]
       if spec.get("replay") and ok:
